@@ -6,6 +6,7 @@ import (
 	"go/constant"
 	"go/token"
 	"go/types"
+	"math"
 	"strings"
 
 	"golang.org/x/tools/go/packages"
@@ -25,6 +26,7 @@ type wword []string
 type wOutcome struct {
 	kind string // "", "return", "continue", "break"
 	err  bool   // a return with a non-nil error
+	vals []wv   // the returned values
 }
 
 type wInterp struct {
@@ -204,6 +206,20 @@ func (w *wInterp) expr(e ast.Expr) wv {
 				return w.bad("division by zero in %s", cx(e))
 			}
 			return a % b
+		case token.SHL:
+			if b >= 0 && b < 62 {
+				return a << uint(b)
+			}
+		case token.SHR:
+			if b >= 0 && b < 64 {
+				return a >> uint(b)
+			}
+		case token.AND:
+			return a & b
+		case token.OR:
+			return a | b
+		case token.XOR:
+			return a ^ b
 		case token.LSS:
 			return a < b
 		case token.LEQ:
@@ -251,6 +267,18 @@ func (w *wInterp) expr(e ast.Expr) wv {
 		return base[lo:hi]
 	case *ast.CallExpr:
 		return w.call(t)
+	case *ast.CompositeLit:
+		// a slice literal of elements: []*Wire{a, b}
+		if _, isArr := t.Type.(*ast.ArrayType); isArr {
+			out := make([]wv, 0, len(t.Elts))
+			for _, el := range t.Elts {
+				if _, kv := el.(*ast.KeyValueExpr); kv {
+					return w.bad("keyed literal %s", cx(e))
+				}
+				out = append(out, w.expr(el))
+			}
+			return out
+		}
 	}
 	return w.bad("expression %s", cx(e))
 }
@@ -261,6 +289,18 @@ func (w *wInterp) call(c *ast.CallExpr) wv {
 		v := w.expr(c.Args[0])
 		if ww, isW := v.(wword); isW {
 			return convertWord(ww, tv.Type)
+		}
+		if bt, ok := tv.Type.Underlying().(*types.Basic); ok {
+			switch x := v.(type) {
+			case float64:
+				if bt.Info()&types.IsInteger != 0 {
+					return int64(x)
+				}
+			case int64:
+				if bt.Info()&types.IsFloat != 0 {
+					return float64(x)
+				}
+			}
 		}
 		return v
 	}
@@ -288,8 +328,18 @@ func (w *wInterp) call(c *ast.CallExpr) wv {
 			return w.bad("make with a non-constant size")
 		}
 		s := make([]wv, n)
+		nested := false
+		if tv, ok := w.pkg.TypesInfo.Types[c.Args[0]]; ok && tv.IsType() {
+			if st, ok := tv.Type.Underlying().(*types.Slice); ok {
+				_, nested = st.Elem().Underlying().(*types.Slice)
+			}
+		}
 		for i := range s {
-			s[i] = "UNSET"
+			if nested {
+				s[i] = []wv{}
+			} else {
+				s[i] = "UNSET"
+			}
 		}
 		return s
 	case "copy":
@@ -302,7 +352,14 @@ func (w *wInterp) call(c *ast.CallExpr) wv {
 	case "append":
 		base, _ := w.expr(c.Args[0]).([]wv)
 		out := append([]wv{}, base...)
-		for _, a := range c.Args[1:] {
+		for i, a := range c.Args[1:] {
+			if c.Ellipsis.IsValid() && i == len(c.Args)-2 {
+				if more, ok := w.expr(a).([]wv); ok {
+					out = append(out, more...)
+					continue
+				}
+				return w.bad("append of a non-slice with ...")
+			}
 			out = append(out, w.expr(a))
 		}
 		return out
@@ -327,6 +384,19 @@ func (w *wInterp) call(c *ast.CallExpr) wv {
 		return w.bad("SetWires of a non-slice")
 	case "Errorf":
 		return "error"
+	case "Log2", "Ceil", "Floor":
+		if sel, ok := c.Fun.(*ast.SelectorExpr); ok && cx(sel.X) == "math" && len(c.Args) == 1 {
+			if x, ok := w.expr(c.Args[0]).(float64); ok {
+				switch name {
+				case "Log2":
+					return math.Log2(x)
+				case "Ceil":
+					return math.Ceil(x)
+				case "Floor":
+					return math.Floor(x)
+				}
+			}
+		}
 	}
 	return w.bad("call %s", cx(c.Fun))
 }
@@ -394,6 +464,10 @@ func (w *wInterp) stmt(s ast.Stmt) wOutcome {
 					v = int64(0)
 				} else if ok && b.Info()&types.IsBoolean != 0 {
 					v = false
+				} else if _, isPtr := w.pkg.TypesInfo.Defs[n].Type().Underlying().(*types.Pointer); isPtr {
+					v = nil
+				} else if _, isSlice := w.pkg.TypesInfo.Defs[n].Type().Underlying().(*types.Slice); isSlice {
+					v = []wv{}
 				}
 				if i < len(vs.Values) {
 					v = w.expr(vs.Values[i])
@@ -411,6 +485,20 @@ func (w *wInterp) stmt(s ast.Stmt) wOutcome {
 			}
 			for i, l := range t.Lhs {
 				w.assign(l, tu[i], define)
+			}
+			return wOutcome{}
+		}
+		if len(t.Lhs) > 1 && len(t.Rhs) == len(t.Lhs) && (t.Tok == token.ASSIGN || t.Tok == token.DEFINE) {
+			// a, b = b, a: every right-hand side is evaluated before anything is assigned
+			vals := make([]wv, len(t.Rhs))
+			for i := range t.Rhs {
+				vals[i] = w.expr(t.Rhs[i])
+				if tu, ok := vals[i].(wtuple); ok && len(tu) == 1 {
+					vals[i] = tu[0]
+				}
+			}
+			for i, l := range t.Lhs {
+				w.assign(l, vals[i], define)
 			}
 			return wOutcome{}
 		}
@@ -512,6 +600,8 @@ func (w *wInterp) stmt(s ast.Stmt) wOutcome {
 			n = v
 		case wtuple:
 			n, elems = int64(len(v)), v
+		case []wv:
+			n, elems = int64(len(v)), wtuple(v)
 		default:
 			w.bad("range over %s is not decided", cx(t.X))
 			return wOutcome{}
@@ -612,11 +702,14 @@ func (w *wInterp) stmt(s ast.Stmt) wOutcome {
 		w.bad("branch %s", t.Tok)
 	case *ast.ReturnStmt:
 		isErr := false
-		if len(t.Results) > 0 {
-			last := w.expr(t.Results[len(t.Results)-1])
-			isErr = last != nil
+		var vals []wv
+		for _, r := range t.Results {
+			vals = append(vals, w.expr(r))
 		}
-		return wOutcome{kind: "return", err: isErr}
+		if len(vals) > 0 {
+			isErr = vals[len(vals)-1] != nil
+		}
+		return wOutcome{kind: "return", err: isErr, vals: vals}
 	default:
 		w.bad("statement %T", s)
 	}
